@@ -199,6 +199,9 @@ func ctxOpTemplateRules(r *Run, p *Prog, T *Terms, id func(string) string, dir s
 		if c, ok := op.Chan.Size.(*ssa.Const); ok && c.Int64() >= 1 {
 			capOK = true
 		}
+		if op.closes() {
+			capOK = true // completion is signalled by closing the channel, which never blocks
+		}
 		r.Ob(id("D3"), fn, "result channel has capacity >= 1", op.Chan.Pos(), capOK, "with an unbuffered channel the helper leaks on the paths that return without receiving")
 	}
 	return nops
